@@ -919,7 +919,7 @@ def strip(c):
 
 
 def run(ctx):
-    ctx.obligations_stage(PROPS, extra_targets=['C05/Examples.vo'], gate_dirs=['C02'])
+    ctx.obligations_stage(PROPS, extra_targets=['C05/Examples.vo', 'C05/HierEx.vo'], gate_dirs=['C02'])
     ctx.assumptions += [
         'model: hand transcription of bspline.knot_insertion (the three loops over a lil_matrix, bspline.py:714-736) into Gallina over Qc '
         '(coq/C05/Model.v); prolongation(kv1,kv2) is SPECIFIED as the product of the single insertions of kv2 minus kv1 '
@@ -927,9 +927,12 @@ def run(ctx):
         'reference: Cox-de Boor recursion Nref of coq/lib/Bsp.v (x/0 = 0, last non-empty span closed at the right end)',
         'float tie: knot_insertion entries within 2^-51 of the model (two roundings); prolongation entries within '
         '1e-15 + (8 n2 + 16(p+1)) eps cond_inf(C_greville) + 64(p+1) eps; findspan index exactly',
-        'hierarchical conjuncts (virtual_hierarchy_prolongators, prolongate_to, represent_fine, level-wise evaluation, boundary) are NOT '
-        'proved in Coq (no model of the HSpace state yet); they are covered by the exact Fraction oracle on the implementation only, '
-        'matrix entries within 2^-23',
+        'hierarchical conjuncts: proved over an abstract multilevel basis with a two-scale relation (instantiated for tensor-product '
+        'B-splines in any dimension by the Kronecker lifting of prolongation_preserves): represent_fine (HB), level-wise evaluation (HB; THB for two levels), '
+        'HB virtual-hierarchy prolongators per level and composed, repaired THB composition (given the inverse change of basis), the propagation of the repaired prolongate_to; '
+        'the children-closed property of deactivated functions is an explicit hypothesis; the matrix index bookkeeping, multi-level THB and the boundary restriction '
+        'are covered by the exact Fraction oracle on the implementation only, matrix entries within 2^-23',
+        'model tie for the hierarchical part: Phb / Pthb_old of coq/C05/Hier.v against virtual_hierarchy_prolongators of /repo on the three-level hierarchy of coq/C05/HierEx.v (entries within 2^-40)',
         'not covered: scipy.sparse.linalg.spsolve inside prolongation; numpy/scipy sparse algebra inside hierarchical.py',
     ]
     rng = ctx.rng
@@ -1027,6 +1030,33 @@ def run(ctx):
         body += 'Eval vm_compute in bad_cases 0 results.\n'
         files.append(('C05_prol_%03d' % n, body))
         index.append(('prol', chunk))
+    # the hierarchy of coq/C05/HierEx.v (witness of vh_prolongators_thb_old_refuted) is the first corpus
+    # history: the implementation's THB prolongator [1] must be the model's Pthb_old entry by entry
+    r0 = rh[0] if rh else None
+    if r0 and r0.get('status') == 'Ok' and not is_err(r0['vh_thb']) and not is_err(r0['vh_hb']):
+        st = r0['hs']
+        same = (st['act'] == [[[2], [3], [4], [5]], [[2], [3]], [[0], [1], [2], [3]]] and st['deact'] == [[[0], [1]], [[0], [1]], []]
+                and st['kvs'][0][0] == [0.0, 0.0, 0.0, 1.0, 2.0, 3.0, 4.0, 4.0, 4.0])
+        if not same:
+            ctx.broken.append('the first corpus history no longer produces the hierarchy of coq/C05/HierEx.v')
+        else:
+            def dense(t):
+                M = [[F(0)] * t['shape'][1] for _ in range(t['shape'][0])]
+                for i, j, v in t['ijv']:
+                    M[i][j] += F(v)
+                return clist([clist(row, cqc) for row in M])
+            body = ('From Coq Require Import QArith Qcanon ZArith List Bool.\nFrom Verif.lib Require Import Bsp.\n'
+                    'From Verif.C05 Require Import Model Hier HierEx.\nImport ListNotations.\n'
+                    'Definition agree (k : nat) (M : nat -> dof -> dof -> Qc) (impl : list (list Qc)) : bool :=\n'
+                    '  forallb (fun a => forallb (fun b => close (q 1 1099511627776)\n'
+                    '     (nth b (nth a impl []) 0) (M k (nth a (dofsV exact exdeact (S k)) (0,0)%%nat) (nth b (dofsV exact exdeact k) (0,0)%%nat)))\n'
+                    '     (seq 0 (length (dofsV exact exdeact k)))) (seq 0 (length (dofsV exact exdeact (S k)))).\n'
+                    'Definition results := [agree 0 (Pthb_old exn exP exact exdeact) %s; agree 1 (Pthb_old exn exP exact exdeact) %s;\n'
+                    '  agree 0 (Phb exP exact exdeact) %s; agree 1 (Phb exP exact exdeact) %s].\n'
+                    'Eval vm_compute in bad_cases 0 results.\n') % (
+                        dense(r0['vh_thb'][0]), dense(r0['vh_thb'][1]), dense(r0['vh_hb'][0]), dense(r0['vh_hb'][1]))
+            files.append(('C05_vhmodel', body))
+            index.append(('vhmodel', None))
     # self-test of the differ: a deliberately perturbed implementation matrix must be flagged
     if okki:
         c, r = okki[0]
@@ -1044,6 +1074,15 @@ def run(ctx):
         badidx = parse_coq_list_of_nat(out) if ok else None
         if badidx is None:
             ctx.broken.append('case file %s did not evaluate: %s' % (name, out[-500:]))
+            continue
+        if kind == 'vhmodel':
+            if badidx != []:
+                ctx.broken.append('virtual_hierarchy_prolongators of /repo differ from the Coq model (Phb / Pthb_old) on the three-level witness: matrices %s' % badidx)
+                ctx.report('tie:vh-model', 'virtual_hierarchy_prolongators (HB or THB) no longer equals the Coq model Phb / Pthb_old on the hierarchy of coq/C05/HierEx.v '
+                           '(if the THB composition was repaired, vh_prolongators_thb_old_refuted no longer describes the code)',
+                           {'history': strip(hier[0]), 'which': badidx}, found_input=False)
+            else:
+                ctx.discharged += 1
             continue
         if kind == 'selftest':
             if badidx != [0]:
@@ -1080,8 +1119,13 @@ def run(ctx):
                        'hierarchical: refinement histories (dim 1..3, p 1..4, disparity inf/1/2, HB and THB, 1..3 region refinements + 1..2 further ones for the fine space); '
                        'one evaluation = one (knot vector, knot) / (kv1, kv2) / history (all matrices and evaluation routes of that history)')
     ctx.cov['input_distribution'] = dist
+    ctx.cov['exhaustive'] = False
     ctx.cov['bounds'] = {'knot_insertion': '2^-51', 'prolongation_max': float(max(bounds)) if bounds else None, 'hierarchical': '2^-23'}
-    ctx.cov['partial'] = ['levelwise_eval_eq_fine, vh_prolongators_hb/thb, prolongate_to_preserves, boundary_restriction: not proved in Coq (oracle only)']
+    ctx.cov['partial'] = ['levelwise_eval_eq_fine_thb_partial: THB proved for two coefficient-carrying levels only',
+                          'vh_prolongators_thb_repaired: rests on the hypothesis that H2 undoes T2 (product of truncate_one_level factors); code as it is: vh_prolongators_thb_old_refuted',
+                          'prolongate_to_replaced_partial: propagation proved, canonical-index bookkeeping of the returned matrix not modelled',
+                          'boundary_restriction: not proved (oracle only)',
+                          'index_hyp (children of deactivated functions lie in the refined region) is an explicit hypothesis, not derived from the C04 invariant']
     if ki:
         ctx.sample({'knot_insertion': {'p': ki[0]['p'], 'kv': [float(x) for x in ki[0]['_kv']], 'u': float(ki[0]['_u']), 'impl_k': rki[0].get('k')}})
     if hier:
